@@ -4,13 +4,13 @@
    result ( (tie model_blocks spec_blocks) per direction )
          blocks = one list of cells per variable pair (0,0),(1,0),(1,1),(2,0).. ; cell = (sw hh gg), hh/gg = () | (lo hi) *)
 From Coq Require Import List ZArith QArith Qabs Qround Qminmax Bool.
-From Gst Require Import lib.Sx lib.QAux C12.Model C12.Spec.
+From Gst Require Import lib.Sx lib.QAux C12.Model C12.ModelExt C12.Spec.
 Import ListNotations.
 Local Open Scope Q_scope.
 
 Definition asCalc (s : sx) : option calc :=
   match s with
-  | I 0%Z => Some Vg | I 1%Z => Some Cov | I 2%Z => Some Covg | I 3%Z => Some Mado
+  | I 0%Z => Some Vg | I 1%Z => Some Cov | I 2%Z => Some Covg | I 3%Z => Some Mado | I 4%Z => Some Rodo
   | I 5%Z => Some Poisson | I 9%Z => Some CovNC | I 10%Z => Some Order4
   | _ => None
   end.
@@ -25,19 +25,24 @@ Definition asSample (s : sx) : option sample :=
   | _ => None
   end.
 (* raw direction: the date interval is filled in afterwards *)
-Definition asDir (dates : list Q) (s : sx) : option dirp :=
+Definition mkDir (dates : list Q) (np dp tol psm cod be cy idate : sx) : option dirp :=
+  match asNat np, asQ dp, asQ tol, asQ psm, asListOf asQ cod, asOQ be, asOQ cy, asNat idate with
+  | Some np', Some dp', Some tol', Some psm', Some cod', Some be', Some cy', Some id' =>
+      (* VarioParam::getDate(idate, icas): 0 when the index is invalid *)
+      let valid := Nat.ltb (2 * id' + 1) (length dates) in
+      Some {| d_npas := np'; d_dpas := dp'; d_tol := tol'; d_psmin := psm'; d_codir := cod';
+              d_bench := be'; d_cyl := cy';
+              d_dmin := if valid then nth (2 * id') dates 0 else 0;
+              d_dmax := if valid then nth (2 * id' + 1) dates 0 else 0 |}
+  | _, _, _, _, _, _, _, _ => None
+  end.
+(* a direction and its breaks (empty = regular lags) *)
+Definition asDir (dates : list Q) (s : sx) : option (dirp * list Q) :=
   match s with
   | L [np; dp; tol; _tolang; psm; cod; be; cy; idate] =>
-      match asNat np, asQ dp, asQ tol, asQ psm, asListOf asQ cod, asOQ be, asOQ cy, asNat idate with
-      | Some np', Some dp', Some tol', Some psm', Some cod', Some be', Some cy', Some id' =>
-          (* VarioParam::getDate(idate, icas): 0 when the index is invalid *)
-          let valid := Nat.ltb (2 * id' + 1) (length dates) in
-          Some {| d_npas := np'; d_dpas := dp'; d_tol := tol'; d_psmin := psm'; d_codir := cod';
-                  d_bench := be'; d_cyl := cy';
-                  d_dmin := if valid then nth (2 * id') dates 0 else 0;
-                  d_dmax := if valid then nth (2 * id' + 1) dates 0 else 0 |}
-      | _, _, _, _, _, _, _, _ => None
-      end
+      match mkDir dates np dp tol psm cod be cy idate with Some d => Some (d, []) | None => None end
+  | L [np; dp; tol; _tolang; psm; cod; be; cy; idate; brk] =>
+      match mkDir dates np dp tol psm cod be cy idate, asListOf asQ brk with Some d, Some b => Some (d, b) | _, _ => None end
   | _ => None
   end.
 
@@ -75,6 +80,48 @@ Definition spec_dir_fast (cf : cfg) (flag_sample : bool) (d : dirp) (l : list sa
   if flag_sample || (match c_calc cf with Covg => true | _ => false end)
   then spec_solution2 cf d l else spec_solution1_fast cf d l.
 
+(* ---- irregular lags: ties at the breaks; spec = all pairs, no sorting / pruning, declarative acceptance, the lag searched from
+   the LAST interval downwards (the intervals of increasing breaks are disjoint: same answer as the first match) ---- *)
+Definition tie_pair_irr (d : dirp) (bs : list Q) (a b : sample) : bool :=
+  tie_pair {| d_npas := 0; d_dpas := 1; d_tol := 0; d_psmin := d_psmin d; d_codir := d_codir d; d_bench := d_bench d; d_cyl := d_cyl d;
+              d_dmin := 0; d_dmax := 0 |} a b
+  || (negb (qleb (g_d2 (geo_pair d a b)) 0) && existsb (fun bk => near_ne (g_d2 (geo_pair d a b)) (bk * bk)) bs).
+Definition spec_lag_irr (npas : nat) (bs : list Q) (d2 : Q) : option nat := find (in_break bs d2) (rev (seq 0 npas)).
+Definition spec_solution1_irr (cf : cfg) (d : dirp) (bs : list Q) (l : list sample) : list (list ocell) :=
+  let means := spec_means cf l in
+  finish cf d l (apply_upds (zero_arr cf d)
+    (flat_map (fun p : sample * sample =>
+                 let (a, b) := p in
+                 let g := geo_pair d a b in
+                 if accepted_b d g && (negb (c_dateChk cf) || real_date_ok d a b) then
+                   match spec_lag_irr (d_npas d) bs (g_d2 g) with
+                   | None => []
+                   | Some k =>
+                       let pc o := {| p_w1 := get_weight cf a; p_w2 := get_weight cf b; p_dlo := sqrt_lo (g_d2 g); p_dhi := sqrt_hi (g_d2 g);
+                                      p_ipas := k; p_orient := o; p_coinc := false |} in
+                       if is_asym (c_calc cf) then
+                         match spec_orient g with
+                         | Ozero => map halve (spec_evaluate cf (d_npas d) means (pc Oplus) a b ++ spec_evaluate cf (d_npas d) means (pc Ominus) a b)
+                         | o => spec_evaluate cf (d_npas d) means (pc o) a b
+                         end
+                       else evaluate cf (d_npas d) means (pc Ozero) a b
+                   end
+                 else []) (spec_pairs cf l))).
+
+(* ---- gridded data: samples in rank order with their coordinates ---- *)
+Definition asCell (s : sx) : option (bool * list (option Q)) :=
+  match s with L [sel; z] => match asB sel, asListOf asOQ z with Some b, Some z' => Some (b, z') | _, _ => None end | _ => None end.
+Definition grid_samples (nx : list nat) (dx x0 : list Q) (w : option Q) (cells : list (bool * list (option Q))) : list sample :=
+  map (fun rc : nat * (bool * list (option Q)) =>
+         {| s_x := map (fun t : Z * (Q * Q) => snd (snd t) + inject_Z (fst t) * fst (snd t)) (combine (rank_to_index nx (fst rc)) (combine dx x0));
+            s_sel := fst (snd rc); s_w := w; s_date := None; s_z := snd (snd rc) |})
+      (combine (seq 0 (length cells)) cells).
+Definition asGDir (s : sx) : option (nat * list Z) :=
+  match s with L [np; g] => match asNat np, asListOf asZ g with Some n, Some g' => Some (n, g') | _, _ => None end | _ => None end.
+Definition dir_of_grid (npas : nat) : dirp :=
+  {| d_npas := npas; d_dpas := 1; d_tol := 0; d_psmin := 0; d_codir := []; d_bench := None; d_cyl := None; d_dmin := 0; d_dmax := 0 |}.
+Definition ofZ (z : Z) : sx := I z.
+
 Definition run (c : sx) : sx :=
   match c with
   | L [I 0%Z; _ndim; cal; fs; L [hs; hw; hd; nv]; ss; ds; dts; _prime] =>
@@ -88,12 +135,56 @@ Definition run (c : sx) : sx :=
               let chk := Nat.leb 2 (length dts') && (qltb (- big) (nth 0 dts' 0) || qltb (nth 1 dts' 0) big) in
               let cf := {| c_calc := cal'; c_hasSel := hs'; c_hasW := hw';
                            c_dateLoop := nonempty && hd'; c_dateChk := chk; c_nvar := nv' |} in
-              ofList (fun d => L [ofB (tie_dir cf d ss');
-                                  ofBlocks (compute_dir cf fs' d ss');
-                                  ofBlocks (spec_dir_fast cf fs' d ss')]) ds'
+              ofList (fun db : dirp * list Q =>
+                        let (d, bs) := db in
+                        match bs with
+                        | [] => L [ofB (tie_dir cf d ss'); ofBlocks (compute_dir cf fs' d ss'); ofBlocks (spec_dir_fast cf fs' d ss')]
+                        | _ => L [ofB (existsb (fun p : sample * sample => tie_pair_irr d bs (fst p) (snd p)) (all_pairs (filter (usable cf) ss')));
+                                  ofBlocks (solution1_irr cf d bs ss'); ofBlocks (spec_solution1_irr cf d bs ss')]
+                        end) ds'
           | None => sx_error 2
           end
       | _, _, _, _, _, _, _, _ => sx_error 1
+      end
+  | L [I 1%Z; cal; nxs; dxs; x0s; nv; cs; hs; gds; nord] =>
+      match asCalc cal, asListOf asNat nxs, asListOf asQ dxs, asListOf asQ x0s, asNat nv, asListOf asCell cs, asB hs, asListOf asGDir gds, asNat nord with
+      | Some cal', Some nx, Some dx, Some x0, Some nv', Some cs', Some hs', Some gds', Some nord' =>
+          (* covariogram on a grid: the weight of every node is the cell size (Vario::_calculateOnGrid) *)
+          let isg := match cal' with Covg => true | _ => false end in
+          let maille := fold_right Qmult 1 dx in
+          let cells := grid_samples nx dx x0 (if isg then Some maille else None) cs' in
+          let cf := {| c_calc := cal'; c_hasSel := hs'; c_hasW := isg; c_dateLoop := false; c_dateChk := false; c_nvar := nv' |} in
+          ofList (fun ng : nat * list Z =>
+                    let (np, g) := ng in
+                    let dp2 := fold_right Qplus 0 (map (fun t : Z * Q => (inject_Z (fst t) * snd t) * (inject_Z (fst t) * snd t)) (combine g dx)) in
+                    if Nat.eqb nord' 0 then ofBlocks (grid_solution cf (dir_of_grid np) dp2 nx cells g)
+                    else ofBlocks (gen_solution cf (dir_of_grid np) dp2 nord' nx cells g)) gds'
+      | _, _, _, _, _, _, _, _, _ => sx_error 3
+      end
+  | L [I 3%Z; cal; nxs; nv; cs; hs; nxxs] =>
+      match asCalc cal, asListOf asNat nxs, asNat nv, asListOf asCell cs, asB hs, asListOf asNat nxxs with
+      | Some cal', Some nx, Some nv', Some cs', Some hs', Some nxx =>
+          let cells := grid_samples nx (map (fun _ => 1) nx) (map (fun _ => 0) nx) None cs' in
+          let cf := {| c_calc := cal'; c_hasSel := hs'; c_hasW := false; c_dateLoop := false; c_dateChk := false; c_nvar := nv' |} in
+          ofBlocks (vmap_grid cf nx cells nxx)
+      | _, _, _, _, _, _ => sx_error 4
+      end
+  | L [I 4%Z; cal; _ndim; nv; hs; hw; ss; nxxs; dxxs] =>
+      match asCalc cal, asNat nv, asB hs, asB hw, asListOf asSample ss, asListOf asNat nxxs, asListOf asQ dxxs with
+      | Some cal', Some nv', Some hs', Some hw', Some ss', Some nxx, Some dxx =>
+          let cf := {| c_calc := cal'; c_hasSel := hs'; c_hasW := hw'; c_dateLoop := false; c_dateChk := false; c_nvar := nv' |} in
+          ofBlocks (vmap_points cf ss' nxx dxx)
+      | _, _, _, _, _, _, _ => sx_error 5
+      end
+  | L [I 5%Z; _ndim; hs; ss; dir; lnb; vnb; d0; d1] =>
+      match asB hs, asListOf asSample ss, asDir [] dir, asNat lnb, asNat vnb, asQ d0, asQ d1 with
+      | Some hs', Some ss', Some (d, _), Some lnb', Some vnb', Some d0', Some d1' =>
+          let cf := {| c_calc := Vg; c_hasSel := hs'; c_hasW := false; c_dateLoop := false; c_dateChk := false; c_nvar := 1 |} in
+          let dt := {| d_npas := d_npas d; d_dpas := d0'; d_tol := 0; d_psmin := d_psmin d; d_codir := d_codir d;
+                       d_bench := d_bench d; d_cyl := d_cyl d; d_dmin := 0; d_dmax := 0 |} in
+          L [ofB (existsb (fun p : sample * sample => tie_pair dt (fst p) (snd p)) (cloud_pairs cf ss'));
+             ofList ofZ (vcloud cf d lnb' vnb' d0' d1' ss')]
+      | _, _, _, _, _, _, _ => sx_error 6
       end
   | _ => sx_error 0
   end.
